@@ -31,7 +31,7 @@ func (c16Suite) Gen(rng *Rng, tier string, w *bufio.Writer, stats *Stats) {
 	// exhaustive small scope: all op sequences of length <= L over 2 keys
 	L := 4
 	if tier == "thorough" {
-		L = 6
+		L = 5
 	}
 	alphabet := []string{"put 1 1", "put 2 2", "put 3 3", "put 1 4", "get 1", "get 2", "get 3", "del 1", "del 2"}
 	if tier != "thorough" {
